@@ -224,3 +224,123 @@ func (e *Env) expandTableLits(lits []ir.NLit) [][]ir.NLit {
 	}
 	return [][]ir.NLit{lits}
 }
+
+// constArrayTable: the entries of a package-level array literal of structs that
+// only the package initialiser writes (`var ops = [...]struct{…}{k1: {…}, …}`),
+// keyed by constant index.
+func (e *Env) constArrayTable(g *ssa.Global) (map[int64]map[string]ssa.Value, bool) {
+	if g.Pkg == nil {
+		return nil, false
+	}
+	init := g.Pkg.Func("init")
+	if init == nil {
+		return nil, false
+	}
+	out := map[int64]map[string]ssa.Value{}
+	// written by init only
+	for _, f := range e.RepoFuncsSorted() {
+		if f == init {
+			continue
+		}
+		for _, b := range f.Blocks {
+			for _, in := range b.Instrs {
+				if ia, ok := in.(*ssa.IndexAddr); ok && ia.X == ssa.Value(g) && ia.Referrers() != nil {
+					for _, r := range *ia.Referrers() {
+						if st, isS := r.(*ssa.Store); isS && st.Addr == ssa.Value(ia) {
+							return nil, false
+						}
+						if fa, isF := r.(*ssa.FieldAddr); isF && fa.Referrers() != nil {
+							for _, r2 := range *fa.Referrers() {
+								if st, isS := r2.(*ssa.Store); isS && st.Addr == ssa.Value(fa) {
+									return nil, false
+								}
+							}
+						}
+					}
+				}
+			}
+		}
+	}
+	for _, b := range init.Blocks {
+		for _, in := range b.Instrs {
+			ia, ok := in.(*ssa.IndexAddr)
+			if !ok || ia.X != ssa.Value(g) || ia.Referrers() == nil {
+				continue
+			}
+			k, isC := ir.ConstInt(ia.Index)
+			if !isC {
+				return nil, false
+			}
+			for _, r := range *ia.Referrers() {
+				fa, isF := r.(*ssa.FieldAddr)
+				if !isF || fa.Referrers() == nil {
+					continue
+				}
+				for _, r2 := range *fa.Referrers() {
+					if st, isS := r2.(*ssa.Store); isS && st.Addr == ssa.Value(fa) {
+						if out[k] == nil {
+							out[k] = map[string]ssa.Value{}
+						}
+						out[k][ir.FieldNameOf(fa.X.Type(), fa.Field)] = st.Val
+					}
+				}
+			}
+		}
+	}
+	return out, len(out) > 0
+}
+
+// arrayTableRead: v = table[idx].field for a constant array table; returns the
+// index value, the field name and the entries.
+func (e *Env) arrayTableRead(v ssa.Value) (idx ssa.Value, field string, entries map[int64]map[string]ssa.Value, ok bool) {
+	u, isU := ir.Resolve(v).(*ssa.UnOp)
+	if !isU || u.Op != token.MUL {
+		return nil, "", nil, false
+	}
+	fa, isF := u.X.(*ssa.FieldAddr)
+	if !isF {
+		return nil, "", nil, false
+	}
+	ia, isI := fa.X.(*ssa.IndexAddr)
+	if !isI {
+		return nil, "", nil, false
+	}
+	g, isG := ia.X.(*ssa.Global)
+	if !isG {
+		return nil, "", nil, false
+	}
+	ents, okT := e.constArrayTable(g)
+	if !okT {
+		return nil, "", nil, false
+	}
+	return ia.Index, ir.FieldNameOf(fa.X.Type(), fa.Field), ents, true
+}
+
+// methodOfFuncValue: the method a function value stands for - a method
+// expression on an interface (`job.Start`, a compiler-made thunk that invokes the
+// method) or a concrete method.
+func methodOfFuncValue(v ssa.Value) string {
+	v = ir.Resolve(v)
+	if mc, ok := v.(*ssa.MakeClosure); ok {
+		v = mc.Fn
+	}
+	f, ok := v.(*ssa.Function)
+	if !ok {
+		return ""
+	}
+	if f.Synthetic != "" {
+		for _, b := range f.Blocks {
+			for _, in := range b.Instrs {
+				if c, isC := in.(ssa.CallInstruction); isC {
+					if c.Common().IsInvoke() {
+						return c.Common().Method.Name()
+					}
+					if g := c.Common().StaticCallee(); g != nil {
+						return g.Name()
+					}
+				}
+			}
+		}
+	}
+	return f.Name()
+}
